@@ -514,7 +514,7 @@ func (x *genCtx) failLine() string {
 	r, g := x.r, x.g
 	h := helperName
 	f, hasF := x.someFile()
-	switch []int{r.Intn(30), 9, 15, 30, 31, 31, 32, 33, 34}[pickIdx(r, 9)] {
+	switch []int{r.Intn(30), 9, 15, 30, 31, 31, 32, 33, 34, 24}[pickIdx(r, 10)] {
 	case 32:
 		// the operand that breaks the demand is not the first one
 		if hasF {
@@ -631,7 +631,22 @@ func (x *genCtx) failLine() string {
 			return "! cmp " + f + " stdout"
 		}
 	case 24:
+		// a command registered by Main used without exec under RequireExplicitExec (or not
+		// registered at all): the line fails whatever prefixes it carries -- a "!" does not excuse
+		// it, and a guard that holds does not hide it
 		if x.c.Ree || x.c.NoMain {
+			switch r.Intn(6) {
+			case 0:
+				return "! " + h + " exit 1"
+			case 1:
+				return "! " + h + " echo negated"
+			case 2:
+				return "[" + pick(r, x.cond.trueC) + "] " + h + " echo guarded"
+			case 3:
+				return "[" + pick(r, x.cond.trueC) + "] ! " + h + " exit 3"
+			case 4:
+				return "[" + pick(r, x.cond.trueC) + "] [" + pick(r, x.cond.trueC) + "] " + h + " ret 0"
+			}
 			return h + " echo needs-exec"
 		}
 	case 25:
